@@ -725,13 +725,44 @@ func toLower(s string) String {
 	return unicodeStringFromRunes(r)
 }
 
+// mapWellFormed applies f to the maximal well-formed substrings of s and copies the unpaired surrogates
+// (which a Go string cannot hold, and which have no case mapping and are not case-ignorable) as they are.
+func (s unicodeString) mapWellFormed(f func(string) String) String {
+	var sb StringBuilder
+	units := s[1:]
+	start := 0
+	for i := 0; i <= len(units); i++ {
+		if i < len(units) {
+			if !utf16.IsSurrogate(rune(units[i])) {
+				continue
+			}
+			if isUTF16FirstSurrogate(units[i]) && i+1 < len(units) && isUTF16SecondSurrogate(units[i+1]) {
+				i++
+				continue
+			}
+		} else if start == 0 {
+			return f(s.String()) // no unpaired surrogates
+		}
+		if i > start {
+			sb.WriteString(f(string(utf16.Decode(units[start:i]))))
+		}
+		if i < len(units) {
+			sb.WriteSubstring(s, i, i+1)
+		}
+		start = i + 1
+	}
+	return sb.String()
+}
+
 func (s unicodeString) toLower() String {
-	return toLower(s.String())
+	return s.mapWellFormed(toLower)
 }
 
 func (s unicodeString) toUpper() String {
 	caser := cases.Upper(language.Und)
-	return newStringValue(caser.String(s.String()))
+	return s.mapWellFormed(func(str string) String {
+		return newStringValue(caser.String(str))
+	})
 }
 
 func (s unicodeString) Export() interface{} {
